@@ -147,7 +147,24 @@ func checkAgainstReference(rc *core.RunCtx, cfg Cfg, out *Out) (ref *refexec.Res
 		return ref, false
 	}
 	if d := CompareErrs(ref.Errors, p.Errors); d != "" {
-		rc.Fail("errors-mismatch", errSite(ref.Errors, p.Errors), "variant=%s sched=%s op=%q plan=%v\n%s\ndata %s", cfg.Variant.Name, cfg.Sched, cfg.Op.Query, planDesc(cfg.Plan), d, p.Raw)
+		site := errSite(ref.Errors, p.Errors)
+		// one specific shape gets its own name: the only errors missing are the "must not be
+		// null" entries of positions where a TYPED NIL pointer stood for null
+		if tn := out.U.TypedNils(); len(tn) > 0 {
+			var rest []refexec.Err
+			dropped := 0
+			for _, e := range ref.Errors {
+				if e.Class == "gqlgen" && tn[e.Path] {
+					dropped++
+					continue
+				}
+				rest = append(rest, e)
+			}
+			if dropped > 0 && CompareErrs(collapsed(rest, p.Errors), p.Errors) == "" {
+				site = "typed-nil-at-non-null-position-without-error"
+			}
+		}
+		rc.Fail("errors-mismatch", site, "variant=%s sched=%s op=%q plan=%v\n%s\ndata %s", cfg.Variant.Name, cfg.Sched, cfg.Op.Query, planDesc(cfg.Plan), d, p.Raw)
 		return ref, false
 	}
 	return ref, true
